@@ -372,6 +372,10 @@ func (c *CountCtx) Err() error {
 	c.mu.Lock()
 	defer c.mu.Unlock()
 	if c.At > 0 && c.Polls >= c.At {
+		// a search is halted by cancelling its context or by the context's deadline passing: both are "done"
+		if c.At%2 == 0 {
+			return context.DeadlineExceeded
+		}
 		return context.Canceled
 	}
 	return nil
